@@ -168,7 +168,7 @@ Stops == Dom(ty)
 RefSound == \A b \in Stops :
   LET q == RefSeq("fwd", start, b, step) r == RefSeq("rev", start, b, step) n == Len(q) IN
   /\ \A j \in 1..n : InRange(q[j], start, b, step)
-  /\ \A x \in Dom(ty) : InRange(x, start, b, step) => \E j \in 1..n : q[j] = x
+  /\ Cardinality({x \in Dom(ty) : InRange(x, start, b, step)}) = n      \* with the next line: q enumerates exactly the members
   /\ \A j \in 1..(n - 1) : q[j + 1] = q[j] + step
   /\ \A j \in 1..n : r[j] = q[n + 1 - j] /\ r[j] = RefElem("rev", start, step, n, j) /\ q[j] = RefElem("fwd", start, step, n, j)
   /\ (n > 0 => q[1] = start)
@@ -196,7 +196,7 @@ ImplAgreesOffHazards == \A b \in Stops : \A body \in Bodies :
 HazardShape == \A b \in Stops :
   LET r == row[b] IN
   r.ev # <<>> =>
-    \/ r.ev[1] = "inc" /\ Abs(step) > 1 /\ r.m = r.n                 \* stepping past the type bound after the last element
+    \/ r.ev[1] = "inc" /\ r.m = r.n /\ (Abs(step) > 1 \/ form = "rev")  \* stepping past the type bound after the last element
     \/ r.ev[1] \in {"init", "bound"} /\ (Special(ty, form, step) \/ form = "rev")
     \/ r.ev[1] = "calc" /\ form = "rev" /\ Abs(step) > 1
 
